@@ -64,6 +64,8 @@ def gen_rle(ctx):
             ctx.notes.append("_rle.pyx: MAX_LEN is not a constant expression (generated as 0)")
             max_pyx = 0
     sel = selection_shape(ctx)
+    import extract_c04
+    state = extract_c04.module_state([SRC / "compression" / "rle.py"])
     ctx.write_generated(
         "Rle",
         "namespace PsdVerif.Generated.Rle\n"
@@ -80,9 +82,12 @@ def gen_rle(ctx):
         f"def selHandlerImports : List String := [{', '.join(lean_str(x) for x in sel['handler_imports'])}]\n"
         f"def selOtherStatements : Nat := {sel['other']}\n"
         f"def selUnboundInHandler : List String := [{', '.join(lean_str(x) for x in sel['unbound'])}]\n"
+        "/-- everything in rle.py through which one call could influence a later one (`global` declarations,\n"
+        "module-level mutable objects read by a function, memoising decorators, mutable defaults) -/\n"
+        f"def rleModuleState : List String := [{', '.join(lean_str(x) for x in state)}]\n"
         "end PsdVerif.Generated.Rle\n",
     )
-    return {"maxLenPy": max_py, "maxLenPyx": max_pyx, "selection": sel}
+    return {"maxLenPy": max_py, "maxLenPyx": max_pyx, "selection": sel, "module_state": state}
 
 
 def _bound_names(stmt):
